@@ -87,6 +87,7 @@ def g_split(draw):
     c["perm"] = gen.permutation(draw, n)
     c["blocks"] = gen.composition(draw, n)
     c["inplace"] = gen.boolean(draw)
+    c["from_empty"] = gen.choice(draw, ["no", "fresh", "reset"])
     return c
 
 
@@ -109,10 +110,20 @@ def c_split(ctx, case):
     ctx.note(len(blocks) >= 2 and any(len(b) == 1 for b in blocks) and soft and p["C"] >= 2,
              "blocks>=2" if len(blocks) >= 2 else "blocks=1",
              "nonconsecutive" if list(case["perm"]) != sorted(case["perm"]) else "consecutive",
-             "+=" if case["inplace"] else "+")
+             ("+= from " + case.get("from_empty", "no")) if case["inplace"] else "+")
     parts = [g.acc_stats(X[b]) for b in blocks]
     snaps = [copy.deepcopy(s) for s in parts]
-    if case["inplace"]:
+    if case["inplace"] and case.get("from_empty", "no") != "no":
+        # the usual accumulator idiom: start from an empty (or reset) container and += every block
+        acc = sut.GMMStats(p["C"], p["F"])
+        if case["from_empty"] == "reset":
+            acc += parts[-1]
+            acc.reset()
+            ctx.check(acc.t == 0 and not np.any(acc.n) and parts[-1] == snaps[-1], "reset() did not give an empty container",
+                      "reset")
+        for s in parts:
+            acc += s
+    elif case["inplace"]:
         acc = copy.deepcopy(parts[0])
         for s in parts[1:]:
             acc += s
